@@ -133,6 +133,13 @@ pub fn gen(rng: &mut Rng, tier: Tier, out: &mut Vec<String>) {
         let g = |n: usize| wr_vec(&(0..n).map(|k| k as f64).collect::<Vec<_>>());
         out.push(format!("mesh2_hist {} {} 2 5 set {} {} {} get {} {} xsec {} ysec {} varmat {}", g(nx), g(ny), i, j, gen_vec_str::<Q>(rng, 2 + (i + j) % 2, 0, 0), i, j, i, j, i));
     } } } }
+    // 1-D mesh shrunk by reading a shorter file: the node numbers that no longer exist must be rejected (mesh1_num reads its
+    // file into a larger, already filled receiver and probes beyond the new end)
+    for nn in 1..=4usize { for nvars in 1..=2usize {
+        let nodes: Vec<f64> = (0..nn).map(|i| i as f64 * 0.5).collect();
+        let data: Vec<f64> = (0..nn * nvars).map(|k| (k as f64) - 1.0).collect();
+        out.push(format!("mesh1_num {} {} {} {} 2 general", wr_vec(&nodes), nvars, wr_vec(&data), wr_vec(&[0.25f64])));
+    } }
     // polynomials: index accessor
     for l in 0..=mx { for k in 0..=mx { out.push(format!("poly_ops q {} {} 1 1 {}", gen_vec_str::<Q>(rng, l, 10, 0), gen_vec_str::<Q>(rng, k, 10, 0), k)); } }
     // clone / mutation interleavings on random histories (the executors snapshot operands around every by-reference call)
